@@ -182,8 +182,7 @@ def run(tier, seed):
     bins = {k: build.build(k)["vdriver"] for k in ("dbg", "rel")}
     n = 36000 if tier == "quick" else 500000
     payloads = [{"seed": seed, "shard": i, "nshards": NCPU, "n": n // NCPU, "bin": bins["dbg"], "kind": "dbg", "thorough": tier == "thorough"} for i in range(NCPU)]
-    if tier == "thorough":
-        payloads += [{"seed": seed, "shard": 100 + i, "nshards": NCPU, "n": n // NCPU // 5, "bin": bins["rel"], "kind": "rel"} for i in range(NCPU)]
+    payloads += [{"seed": seed, "shard": 100 + i, "nshards": NCPU, "n": n // NCPU // 5, "bin": bins["rel"], "kind": "rel"} for i in range(NCPU)]     # release build: both tiers
     acc = run_shards(shard, payloads)
     return finish(PID, tier, seed, "exploration", acc, RULE, t0,
                   assumptions=["offset scales (°C, °F) are excluded here and handled by C09", "dimension classes come from the frozen reference table"],
